@@ -51,7 +51,13 @@ static bool history(uint64_t seed, bool ooo, std::string* desc) {
     for (auto& w : ws) { w.th = photon::thread_create(&waiter, &w); photon::thread_yield(); }   // queue order == index order
     uint64_t signalled = 0, main_taken = 0;
     auto quiescent_ok = [&]() -> bool {
-        photon::thread_usleep(1000);
+        // quiescence: every waiter that has not returned is asleep again (a resumed waiter that has not run yet is READY, not blocked)
+        for (int spin = 0; spin < 5000; spin++) {
+            photon::thread_usleep(1000);
+            bool settled = true;
+            for (auto& w : ws) if (w.started && !w.done && photon::thread_stat(w.th) != photon::states::SLEEPING) settled = false;
+            if (settled) break;
+        }
         uint64_t c = sem.count();
         auto head = (photon::thread*)sem.q.th;              // the real queue head (a waiter that re-queued went to the tail)
         for (auto& w : ws) if (w.started && !w.done) {
@@ -135,9 +141,15 @@ int main(int argc, char** argv) {
     if (argc >= 3 && !strcmp(argv[1], "--replay")) {
         std::ifstream f(argv[2]); std::stringstream ss; ss << f.rdbuf(); std::string j = ss.str(), msg;
         int r = in_child([] { return history_ooo_fixed(); }, 5, &msg);
+        { auto p_ = j.find("seed "); if (j.find("in_order") != std::string::npos && p_ != std::string::npos) { uint64_t sd = strtoull(j.c_str() + p_ + 5, 0, 10); static std::string dd; int r2 = in_child([&] { bool ok = history(sd, false, &dd); if (!ok) why = dd + ": " + why; return ok; }, 20, &msg); printf("%s %s\n", r2 ? "REPRODUCED" : "NOT-REPRODUCED", msg.c_str()); return 0; } }
         if (j.find("overtake") != std::string::npos || j.find("wait_interruptible") != std::string::npos) { int r2 = in_child([] { return history_overtake_fixed(); }, 10, &msg); printf("%s %s\n", r2 ? "REPRODUCED" : "NOT-REPRODUCED", msg.c_str()); return 0; }
         if (j.find("out_of_order") != std::string::npos || j.find("ooo") != std::string::npos) { printf("%s %s\n", r ? "REPRODUCED" : "NOT-REPRODUCED", msg.c_str()); return 0; }
         printf("NOT-REPRODUCED no concrete history for this obligation\n"); return 0;
+    }
+    if (argc >= 3 && !strcmp(argv[1], "--one")) {      // a single in-order history by seed, for debugging / replay
+        uint64_t sd = strtoull(argv[2], 0, 10); std::string msg; static std::string dd;
+        int r = in_child([&] { bool ok = history(sd, argc > 3, &dd); if (!ok) why = dd + ": " + why; else why = dd; fprintf(stderr, "%s\n", why.c_str()); return ok; }, 20, &msg);
+        printf("%s %s\n", r ? "REPRODUCED" : "NOT-REPRODUCED", msg.c_str()); return 0;
     }
     uint64_t N = argc > 1 ? strtoull(argv[1], 0, 10) : 300, cases = 0;
     uint64_t seed0 = getenv("VERIF_SEED") ? strtoull(getenv("VERIF_SEED"), 0, 10) : 1;
